@@ -48,3 +48,40 @@ PROPS["C09"] = dict(
     assumptions=["np.nanmean/nansum/nanmin/nanmax/nanstd/nanvar are functions of the multiset of non-NaN elements of the window they are given (assumed NumPy contract)"],
     trusted_base=[],
 )
+
+PROPS["C10"] = dict(
+    producers=[("pyvc.frame_check", "frame_items"), ("pyvc.wrapper_check", "wrapper_items")],
+    level="proof",
+    technique="contract-based frame conditions: static may-alias/modification analysis of the real source (modifies / fresh-result per public function), kernel frame obligations from pyvc, wrapper identity terms",
+    not_decided=["memory sharing through xarray coordinate objects (assumed xarray contract: the constructor wraps coords without exposing the input's buffers)"],
+    assumptions=["NumPy/Numba astype/copy/flatten/arithmetic results are fresh; ravel/reshape/basic slices/.data/.values/np.asarray may alias (conservative)",
+                 "user-supplied reducers (focal apply func, zonal custom stats) do not write their argument",
+                 "xr.DataArray(data, coords=c, dims=d, attrs=a) has those dims/coords and a shallow copy of a"],
+    trusted_base=[],
+    allow_no_contracts=True,
+    bounded=[("c10_inputs_untouched", {"quick": 40, "thorough": 300})],
+)
+PROPS["C11"] = dict(
+    producers=[("pyvc.frame_check", "frame_items")],
+    level="proof",
+    technique="contract-based frame conditions over the whole package: no function writes module/closure/default state, jitted globals bound once, no cache/parallel jit options, RNG draws dominated by seeding; history independence follows by induction over the call sequence (stated meta-lemma)",
+    not_decided=["Numba's dispatcher cache and the thread scheduler themselves (assumed)",
+                 "bump() draws from the unseeded global RNG by design (it has no seed parameter); not claimed"],
+    assumptions=["meta-lemma: if no call writes state that a later call reads, every call's result is a function of its arguments"],
+    trusted_base=[],
+    allow_no_contracts=True,
+    bounded=[("c11_history_vs_fresh_process", {"quick": 75, "thorough": 600, "jit": True})],
+)
+
+PROPS["C01"] = dict(
+    producers=[("pyvc.wrapper_check", "wrapper_items")],
+    level="proof",
+    technique="contract-based: kernel postconditions (reused), halo lemmas over the spec functions, wrapper terms (same kernel and parameters on both backends, halo depth = stencil radius, NaN boundary, global statistics outside the mapped function, result lazy) - relative to the assumed Dask contracts; end-to-end equality bounded",
+    not_decided=["Dask's own block / halo / scheduling semantics (assumed contract, exercised by the bounded stand-in)",
+                 "halo lemma for convolution_2d / focal apply / focal mean with symbolic kernel sizes (bounded only)",
+                 "float rounding of differently ordered global reductions (hotspots, true_color, perlin, generate_terrain)",
+                 ],
+    assumptions=["x.map_overlap(f, depth=(dy,dx), boundary=nan) applies f to each block extended by dy/dx cells of neighbouring data (NaN outside) and trims the halo; da.map_blocks applies f to corresponding blocks of identically chunked arrays; task order and worker count do not affect pure tasks"],
+    trusted_base=[],
+    bounded=[("c01_dask_equals_numpy", {"quick": 60, "thorough": 600})],
+)
